@@ -2392,9 +2392,7 @@ class CreateQueryBuilder:
         :return:
             CreateQueryBuilder.
         """
-        self._uniques = self._uniques + [
-            [(column if isinstance(column, Column) else Column(column)) for column in columns]
-        ]
+        self._uniques = self._uniques + [[self._constraint_column(column) for column in columns]]
 
     @builder
     def primary_key(self, *columns: str | Column) -> "Self":  # type:ignore[return]
@@ -2414,9 +2412,14 @@ class CreateQueryBuilder:
         """
         if self._primary_key is not None:
             raise AttributeError("'Query' object already has attribute primary_key")
-        self._primary_key = [
-            (column if isinstance(column, Column) else Column(column)) for column in columns
-        ]
+        self._primary_key = [self._constraint_column(column) for column in columns]
+
+    @staticmethod
+    def _constraint_column(column: str | tuple[str, str] | Column) -> Column:
+        # the forms columns() takes: of a (name, type) pair a constraint needs the name
+        if isinstance(column, Column):
+            return column
+        return Column(column[0] if isinstance(column, tuple) else column)
 
     @builder
     def as_select(self, query_builder: QueryBuilder) -> "Self":  # type:ignore[return]
